@@ -10,6 +10,7 @@ import MdIt.Drv.Core
 import MdIt.Drv.Inline
 import MdIt.Drv.Block
 import MdIt.Drv.Refs
+import MdIt.Drv.Mini
 open MdIt
 
 def handle (line : String) : String :=
@@ -26,6 +27,7 @@ def handle (line : String) : String :=
   | "codespan" :: rest => Drv.verbatimLine "codespan" rest
   | "hr" :: rest => Drv.verbatimLine "hr" rest
   | "blockloop" :: rest => Drv.blockLoopLine rest
+  | "miniblock" :: rest => Drv.miniLine rest
   | "unescape" :: rest => Drv.unescapeLine rest
   | "inline" :: rest => Drv.inlineLine rest
   | "textjoin" :: rest => Drv.textJoinLine rest
